@@ -27,10 +27,23 @@ def sim_case(
     time_kinds=("uniform", "quadratic", "geometric", "random", "big", "repeat", "intdays"),
     schedules=True,
     families=("power", "power1", "kinked", "realgas", "liquid"),
+    subclasses=False,
+    big_nx=False,
 ):
     cls = draw(st.sampled_from(list(classes)))
     nx = draw(st.one_of(st.integers(3, min(12, nx_max)), st.integers(3, nx_max), st.integers(3, nx_max).map(lambda v: v)))
     case = {"cls": cls, "nx": nx, "time": draw(grids.time_spec(max_steps, time_kinds))}
+    if big_nx and draw(st.integers(0, 39)) == 0:
+        # a very fine grid with a handful of steps (an implementation may switch solvers / storage with the grid size)
+        case["nx"] = draw(st.integers(1500, 4500))
+        case["time"] = {"kind": "steps", "steps": [draw(st.floats(1e-9, 1e-3)) for _ in range(draw(st.integers(2, 5)))], "start": 0.0}
+    # how the fluid / reservoir objects reach the simulation: as constructed, or after copy.copy / copy.deepcopy / a
+    # pickle round trip (worker processes, caches, dataclasses.replace): a copy is the same fluid
+    case["object_path"] = draw(st.sampled_from(["direct"] * 5 + ["copy", "deepcopy", "pickle", "deepcopy-reservoir"]))
+    if subclasses and cls == "single" and draw(st.integers(0, 5)) == 0:
+        # a user subclass overriding the documented hook alpha_scaled (stress-sensitive permeability: the table's
+        # diffusivity times a positive factor that falls with drawdown) and inheriting simulate
+        case["subclass_gamma"] = draw(st.sampled_from([0.5, 1.5, 3.0]))
     # the form in which the initial and frac-face pressures are handed to the wrapper / reservoir (whole-number
     # pressures as Python or numpy ints, numpy float scalars, 0-d arrays): one case in three
     case["scalar_form"] = draw(st.sampled_from(["float", "float", "float", "float", "int", "np.int64", "np.float64", "0d-float64"]))
@@ -152,6 +165,29 @@ def build_twophase(case):
     return fluid, p_f, p_i, float(p[1])
 
 
+def _copied(obj, how):
+    import copy
+    import pickle
+
+    if how == "copy":
+        return copy.copy(obj)
+    if how == "deepcopy":
+        return copy.deepcopy(obj)
+    if how == "pickle":
+        return pickle.loads(pickle.dumps(obj))
+    return obj
+
+
+def _stress_sensitive(base, gamma):
+    class StressSensitiveReservoir(base):
+        def alpha_scaled(self, pseudopressure):
+            m_i = float(self.fluid.m_i)
+            drawdown = np.clip((m_i - np.asarray(pseudopressure, float)) / m_i, 0.0, 1.0)
+            return super().alpha_scaled(pseudopressure) * np.exp(-gamma * drawdown)
+
+    return StressSensitiveReservoir
+
+
 def run(case, simulate=True) -> Run:
     from bluebonnet.flow import IdealReservoir, SinglePhaseReservoir
 
@@ -176,8 +212,16 @@ def run(case, simulate=True) -> Run:
         sched = None  # TwoPhaseReservoir.simulate takes no schedule
     else:
         tab, fluid, p_f, p_i = build_fluid(case)
+        how = case.get("object_path", "direct")
+        if how in ("copy", "deepcopy", "pickle"):
+            fluid = lib(f"FlowProperties after {how}", _copied, fluid, how)
+        if case.get("subclass_gamma"):
+            SinglePhaseReservoir = _stress_sensitive(SinglePhaseReservoir, float(case["subclass_gamma"]))
         form = case.get("scalar_form", "float") if forms.representable(p_i, case.get("scalar_form", "float")) == p_i and forms.representable(p_f, case.get("scalar_form", "float")) == p_f else "float"
         res = SinglePhaseReservoir(nx, forms.scalar(p_f, form), forms.scalar(p_i, form), fluid)
+        if case.get("object_path") == "deepcopy-reservoir":
+            res = lib("SinglePhaseReservoir after deepcopy", _copied, res, "deepcopy")
+            fluid = res.fluid
         p_lo = float(tab["pressure"][0])
         sched = grids.build_schedule(case["schedule"], len(time), p_f, p_i, p_lo)
     if simulate:
@@ -195,7 +239,7 @@ def run(case, simulate=True) -> Run:
 
 
 def labels(case, r: Run | None = None):
-    out = {"cls": case["cls"], "scalar_form": case.get("scalar_form", "float"), "grid": grids.grid_label(case["time"]), "nx": "3-12" if case["nx"] <= 12 else ("13-60" if case["nx"] <= 60 else ("61-150" if case["nx"] <= 150 else ">150"))}
+    out = {"object_path": case.get("object_path", "direct"), "subclass": bool(case.get("subclass_gamma")), "cls": case["cls"], "scalar_form": case.get("scalar_form", "float"), "grid": grids.grid_label(case["time"]), "nx": "3-12" if case["nx"] <= 12 else ("13-60" if case["nx"] <= 60 else ("61-150" if case["nx"] <= 150 else ">150"))}
     if case["cls"] == "twophase":
         out["table"] = "shipped:oil+water (two-phase)"
     elif case["cls"] != "ideal":
